@@ -238,7 +238,7 @@ def bindDefaults (ctxVars : List (String × Val)) : St → List (String × Optio
     (match evalIn stc ctxVars e with
      | .ok v => bindDefaults ctxVars (stc.bind p v) more
      | .error err => .error (err, stc.quirk))
-  | stc, (p, none) :: more => bindDefaults ctxVars (stc.bind p (.undef p)) more
+  | stc, (p, none) :: more => bindDefaults ctxVars (stc.bind p (.undef "")) more
 
 /-- `m(args)`: arguments are evaluated in the caller's scope; the body runs over the scopes the macro was written in -/
 def callMacroWith (rn : Runner) (ctxVars : List (String × Val)) (fuelA : Nat) (st : St) (name : String) (args : List Expr)
